@@ -50,24 +50,46 @@ theorem members_eq_reach (cfg : Cfg) (fs : FS) (us : List Upd)
   rw [← h3]
   exact h1.closed p
 
+/-- `C12_formats_eq_rebuild`: the commodity formats after any history are those of a rebuild
+    on the final contents — no guard (code repaired by fix-formats-path-order.diff: the last
+    directive with a format wins, reading the root journal and then the other member files in
+    path order, whatever `resolved.FileOrder` has become). -/
+theorem C12_formats_eq_rebuild (cfg : Cfg) (fs : FS) (us : List Upd)
+    (h : Setting cfg fs us) :
+    formatsOk (rebuildAt cfg.limit (rootSel fs) (finalFs fs us))
+      (observe (run cfg fs us).w).1 = true := by
+  obtain ⟨h1, _, h3, _⟩ := run_ok cfg fs us h.ok h.nonempty h.clean h.limit h.upds
+  have := HL.Lemmas.Formats.formats_ok cfg (finalFs fs us) (run cfg fs us).w h1
+  rw [h3] at this
+  exact this
+
 /-- `C12_view_eq_rebuild`: the observed view after any history satisfies the specification of
-    a rebuild on the final contents (with the root chosen at initialisation), in every
-    component but commodity formats: member files, all counts, known accounts (with their
+    a rebuild on the final contents (with the root chosen at initialisation), in EVERY
+    component the statement lists: member files, all counts, known accounts (with their
     prefix index), payees, commodities, tags, tag values, dates, the transaction index
-    (per key as a multiset), declared accounts and commodities — for the pinned and the
-    repaired code alike — and payee templates for the code repaired by
-    fix-template-loss.diff (`cfg.fixT`): same payees as a rebuild, each template one of the
-    member files' templates (hence THE template wherever the members agree). -/
+    (per key as a multiset), declared accounts and commodities, commodity formats — and
+    payee templates for the code repaired by fix-template-loss.diff (`cfg.fixT`): same
+    payees as a rebuild, each template one of the member files' templates (hence THE
+    template wherever the members agree; `C12_templates_eq_rebuild` for equality). -/
 theorem C12_view_eq_rebuild (cfg : Cfg) (fs : FS) (us : List Upd)
     (h : Setting cfg fs us) :
     let r := rebuildAt cfg.limit (rootSel fs) (finalFs fs us)
     let v := (observe (run cfg fs us).w).1
     membersOk r v = true ∧ countsOk r v = true ∧ namesOk r v = true ∧ txOk r v = true ∧
-    declOk r v = true ∧ (cfg.fixT = true → ptOk r v = true) := by
+    declOk r v = true ∧ formatsOk r v = true ∧ (cfg.fixT = true → ptOk r v = true) := by
   obtain ⟨h1, _, h3, _⟩ := run_ok cfg fs us h.ok h.nonempty h.clean h.limit h.upds
   have := view_ok cfg (finalFs fs us) (run cfg fs us).w h1
   rw [h3] at this
-  exact this
+  obtain ⟨a1, a2, a3, a4, a5, a6⟩ := this
+  exact ⟨a1, a2, a3, a4, a5, C12_formats_eq_rebuild cfg fs us h, a6⟩
+
+/-- with the payee-template repair the whole judgement `viewOk` — the one the correspondence
+    driver applies to the implementation's view — accepts the view after any history. -/
+theorem C12_viewOk (cfg : Cfg) (fs : FS) (us : List Upd) (h : Setting cfg fs us)
+    (hfix : cfg.fixT = true) :
+    viewOk (rebuildAt cfg.limit (rootSel fs) (finalFs fs us)) (observe (run cfg fs us).w).1 = true := by
+  obtain ⟨a1, a2, a3, a4, a5, a6, a7⟩ := C12_view_eq_rebuild cfg fs us h
+  simp [viewOk, failures, a1, a2, a3, a4, a5, a6, a7 hfix]
 
 /-- the same against `rebuild` (root selected by the specification's own `rootOf`), when a
     rebuild selects the root the workspace has: the negated guard of the known finding
@@ -77,7 +99,7 @@ theorem C12_view_eq_rebuild_root (cfg : Cfg) (fs : FS) (us : List Upd) (h : Sett
     let r := rebuild cfg.limit (finalFs fs us)
     let v := (observe (run cfg fs us).w).1
     membersOk r v = true ∧ countsOk r v = true ∧ namesOk r v = true ∧ txOk r v = true ∧
-    declOk r v = true ∧ (cfg.fixT = true → ptOk r v = true) := by
+    declOk r v = true ∧ formatsOk r v = true ∧ (cfg.fixT = true → ptOk r v = true) := by
   have h0 := C12_view_eq_rebuild cfg fs us h
   have e : rootOf (finalFs fs us) = rootSel fs := by
     rw [hroot, HL.Lemmas.Root.rootSel_eq_rootOf fs (fsOk_nodup fs h.ok)]
@@ -94,11 +116,13 @@ theorem rebuild_satisfies_spec (cfg : Cfg) (fs : FS)
     let r := rebuildAt cfg.limit (rootSel fs) fs
     let v := (observe (init cfg fs)).1
     membersOk r v = true ∧ countsOk r v = true ∧ namesOk r v = true ∧ txOk r v = true ∧
-    declOk r v = true ∧ (cfg.fixT = true → ptOk r v = true) := by
+    declOk r v = true ∧ formatsOk r v = true ∧ (cfg.fixT = true → ptOk r v = true) := by
   obtain ⟨i1, i2, _⟩ := init_ok cfg fs h.ok h.nonempty h.clean h.limit
   have := view_ok cfg fs (init cfg fs) i1
-  rw [i2] at this
-  exact this
+  have hf := HL.Lemmas.Formats.formats_ok cfg fs (init cfg fs) i1
+  rw [i2] at this hf
+  obtain ⟨a1, a2, a3, a4, a5, a6⟩ := this
+  exact ⟨a1, a2, a3, a4, a5, hf, a6⟩
 
 /-- The loop of `refreshIncludeTreeLocked` reaches its fixpoint within `len(directory) + 2`
     rounds (the fuel of `refreshIncludeTree`; HL.Lemmas.Refresh.refresh_ok): in every
@@ -148,30 +172,26 @@ theorem C12_files_eq_rebuild (cfg : Cfg) (fs : FS) (us : List Upd)
   obtain ⟨i1, i2, _⟩ := init_ok cfg (finalFs fs us) hfin.ok hfin.nonempty hfin.clean hfin.limit
   exact files_get_eq cfg (finalFs fs us) _ _ h1 i1 (by rw [h3, i2, hroot]) f
 
-/-! ### commodity formats (known finding `formats-order`) -/
+/-! ### commodity formats (finding `formats-order`, repaired by fix-formats-path-order.diff) -/
 
-/-- `C12_formats_partial`: if no two member files other than the root declare different
-    formats for one commodity (`formatConflict = false` on the final contents), the
-    commodity formats after any history are those of a rebuild. -/
-theorem C12_formats_partial (cfg : Cfg) (fs : FS) (us : List Upd)
-    (h : Setting cfg fs us) (hlim : (finalFs fs us).length ≤ cfg.limit)
-    (hno : formatConflict (finalFs fs us) (rootSel fs) = false) :
-    formatsOk (rebuildAt cfg.limit (rootSel fs) (finalFs fs us))
-      (observe (run cfg fs us).w).1 = true := by
+/-- the commodity formats after any history are, as a map, exactly those of a fresh workspace
+    initialised on the final contents (when the rebuild selects the same root). -/
+theorem C12_formats_eq_init (cfg : Cfg) (fs : FS) (us : List Upd)
+    (h : Setting cfg fs us) (hfin : Setting cfg (finalFs fs us) [])
+    (hroot : rootSel (finalFs fs us) = rootSel fs) :
+    (observe (run cfg fs us).w).1.formats = (observe (init cfg (finalFs fs us))).1.formats := by
   obtain ⟨h1, _, h3, _⟩ := run_ok cfg fs us h.ok h.nonempty h.clean h.limit h.upds
-  have := HL.Lemmas.Formats.formats_ok cfg (finalFs fs us) (run cfg fs us).w h1 hlim (h3 ▸ hno)
-  rw [h3] at this
-  exact this
+  obtain ⟨i1, i2, _⟩ := init_ok cfg (finalFs fs us) hfin.ok hfin.nonempty hfin.clean hfin.limit
+  rw [observe_fst, observe_fst]
+  simp only [newF_eq cfg (finalFs fs us) _ h1, newF_eq cfg (finalFs fs us) _ i1,
+    HL.Lemmas.Formats.computeFormats_eq',
+    HL.Lemmas.Formats.pathCommDirs_eq cfg (finalFs fs us) _ h1,
+    HL.Lemmas.Formats.pathCommDirs_eq cfg (finalFs fs us) _ i1, h3, i2, hroot]
 
-/-- the formats of a fresh workspace are those of the specification (no guard needed: the
-    specification follows the loader's file order). -/
-theorem rebuild_formats (cfg : Cfg) (fs : FS) (h : Setting cfg fs [])
-    (hno : formatConflict fs (rootSel fs) = false) :
-    formatsOk (rebuildAt cfg.limit (rootSel fs) fs) (observe (init cfg fs)).1 = true := by
-  obtain ⟨i1, i2, _⟩ := init_ok cfg fs h.ok h.nonempty h.clean h.limit
-  have := HL.Lemmas.Formats.formats_ok cfg fs (init cfg fs) i1 h.limit (i2 ▸ hno)
-  rw [i2] at this
-  exact this
+/-- the formats of a fresh workspace are those of the specification. -/
+theorem rebuild_formats (cfg : Cfg) (fs : FS) (h : Setting cfg fs []) :
+    formatsOk (rebuildAt cfg.limit (rootSel fs) fs) (observe (init cfg fs)).1 = true :=
+  (rebuild_satisfies_spec cfg fs h).2.2.2.2.2.1
 
 def eur (f : String) : Contrib := { cds := [{ sym := "EUR", raw := f, fmt := f }] }
 
@@ -185,22 +205,26 @@ def usF : List Upd :=
   [{ path := "main.journal", c := { incs := ["c.journal"] } },
    { path := "main.journal", c := { incs := ["b.journal", "c.journal"] } }]
 
-/-- `formats_order_counterexample` (pinned and repaired code alike): after b became
-    unreachable and reachable again it sits at the end of `resolved.FileOrder`, its format
-    now wins, while a rebuild (depth-first include order) lets c's win.  The final contents
-    equal the initial ones. -/
-theorem formats_order_counterexample :
+/-- `pinned_formats_order_counterexample`: the pinned `GetCommodityFormats` read the files in
+    the order of `resolved.FileOrder`.  After b became unreachable and reachable again it
+    sits at the end of that list (`[c, b]`), so b's format won, while on a fresh workspace
+    (depth-first include order `[b, c]`) c's wins — on identical final contents.  The
+    repaired getter gives c's format in both. -/
+theorem pinned_formats_order_counterexample :
     finalFs fsF usF = fsF ∧
-    (observe (run { fixT := true, fixG := true } fsF usF).w).1.formats = some [("EUR", "1.000,00 EUR")] ∧
-    (observe (init { fixT := true, fixG := true } (finalFs fsF usF))).1.formats = some [("EUR", "1,000.00 EUR")] ∧
-    formatsOk (rebuildAt 50 "main.journal" (finalFs fsF usF))
-      (observe (run { fixT := true, fixG := true } fsF usF).w).1 = false ∧
-    formatConflict (finalFs fsF usF) "main.journal" = true := by decide
+    (run { fixT := true, fixG := true } fsF usF).w.order = ["c.journal", "b.journal"] ∧
+    (init { fixT := true, fixG := true } (finalFs fsF usF)).order = ["b.journal", "c.journal"] ∧
+    pinnedComputeFormats (run { fixT := true, fixG := true } fsF usF).w = [("EUR", "1.000,00 EUR")] ∧
+    pinnedComputeFormats (init { fixT := true, fixG := true } (finalFs fsF usF)) = [("EUR", "1,000.00 EUR")] ∧
+    formatConflict (finalFs fsF usF) "main.journal" = true ∧
+    (observe (run { fixT := true, fixG := true } fsF usF).w).1.formats = some [("EUR", "1,000.00 EUR")] ∧
+    (observe (init { fixT := true, fixG := true } (finalFs fsF usF))).1.formats = some [("EUR", "1,000.00 EUR")] := by
+  decide
 
-/-- the hypotheses of `C12_formats_partial` are satisfiable on a non-trivial history. -/
-example : Setting {} fsF [{ path := "b.journal", c := eur "1,000.00 EUR" }] ∧
-    formatConflict (finalFs fsF [{ path := "b.journal", c := eur "1,000.00 EUR" }]) (rootSel fsF) = false :=
-  ⟨⟨by decide, by decide, by decide, by unfold graphsClean; decide, by decide⟩, by decide⟩
+/-- `Setting` holds on the history of the counterexample: `C12_formats_eq_rebuild` applies
+    to it (non-vacuity on the very shape that failed). -/
+example : Setting { fixT := true, fixG := true } fsF usF :=
+  ⟨by decide, by decide, by decide, by unfold graphsClean; decide, by decide⟩
 
 /-! ### payee templates of the pinned code (known finding `template-loss`) -/
 
